@@ -229,6 +229,12 @@ def matchsep_family():
             texts = [" ".join(lead + t) for t in (["x"], ["x", s, "x"], ["x", s, "x", s, "k"], ["x", s, "k"], ["x", s], [s, "k"], ["x", s, "x", s])]
             yield [("M", {}, SEQ(A("n", "=", REF("F")), ("opt", SEQ(sep, A("all", "?=", L("k")))))), F], texts
             yield [("M", {}, SEQ(A("n", "+=", REF("F")), ("opt", SEQ(sep, L("k"))))), F], texts
+    # the match rule itself goes on after the repetition with the separator's text (the given-back separator is followed by another node)
+    for sep, s_ in ((L("."), "."), (RE(",|;"), ",")):
+        F = ("F", {}, SEQ(("plus", REF("INT"), sep, False), sep if sep[0] == "lit" else L(","), L("e")))
+        texts = ["7 %s 0 %s e" % (s_, s_), "7%s0%se" % (s_, s_), "7 %s e" % s_, "7  %s  0  %s  e" % (s_, s_), "7 %s 0 e" % s_]
+        yield [("M", {}, A("n", "=", REF("F"))), F], texts
+        yield [("M", {}, A("n", "+=", REF("F"))), F], texts
     # suppression inside parentheses around a single element
     q = L("q")
     yield [("M", {}, A("v", "=", REF("Q"))), ("Q", {}, SEQ(("sup", q), REF("ID"), ("sup", q)))], ["q x q", "qxq", "x", "q x"]
